@@ -110,6 +110,24 @@ def runIterHistory (d : EnumDef) (m : Mode) : List IterState → List String →
         match slots[slot]? with
         | none => some ["bad-slot"]
         | some s => (runIterHistory d m slots ts).map (showItem d (nth N s n).2 :: ·)
+      | "fold" | "count" | "last" =>
+        -- consumers of a copy whose default bodies in core are repeated `next` (`fold`, and `count` / `last` through it)
+        match slots[slot]? with
+        | none => some ["bad-slot"]
+        | some s =>
+          let items := collectFuel N (N + 2) s
+          let shown :=
+            if name = "fold" then "fold=" ++ String.intercalate "+" (items.map (fun i => showItem d (some i)))
+            else if name = "count" then "count=" ++ toString items.length
+            else showItem d items.getLast?
+          (runIterHistory d m slots ts).map (shown :: ·)
+      | "rfold" =>
+        -- `it.clone().rfold(..)`: repeated `next_back`
+        match slots[slot]? with
+        | none => some ["bad-slot"]
+        | some s =>
+          (runIterHistory d m slots ts).map
+            (("rfold=" ++ String.intercalate "+" ((collectBackFuel m N (N + 2) s).map (fun i => showItem d (some i)))) :: ·)
       | "stepby" =>
         -- first three items of `it.clone().step_by(n)`: `next()`, then `nth(n - 1)` twice
         match slots[slot]? with
